@@ -148,10 +148,27 @@ def run(ctx):
             c = '(cat (l' + ''.join(' ' + x for x in xs) + ') (l' + ''.join(' ' + y for y in ys) + '))'
             st = rnd.choice(opgen.STORES)
             add(st, 'Equal', l, c, 'list-vs-concat'); add(st, 'Equal', c, l, 'list-vs-concat-sym')
-    ctx.evaluations = len(cases)
+    # histories: the second operand built AFTER a list was started and never ended on the same data object (what a failed MakeList or
+    # an interrupted host leaves behind) — the verdict must be that of the plain store
+    hist = []
+    if not ctx.replay:
+        for c in cases:
+            if c[0] == 'OP' and c[2] in ('simple', 'basic') and ('(l' in c[6] or '(cat' in c[6]) and meta.get(c[1]) in ('refl', 'mutant', 'list-vs-concat', 'matrix'):
+                hist.append(c)
+        hist = hist[:: max(1, len(hist) // (1500 if ctx.tier == 'quick' else 20000))]
+        hist = [['OP', 'h' + c[1], c[2] + 'abandon'] + c[3:] for c in hist]
+    ctx.evaluations = len(cases) + len(hist)
     if not h_ok:
         return
     rows = opsuite.run(cases, 'c11', drv_ok)
+    if hist:
+        hi_ = vlib.run_impl(hist, 'c11hist', per_case_s=5.0)
+        plain_ = {c[1]: ri for c, ri, rm, skip in rows}
+        for c in hist:
+            ctx.distinct.add(('history', c[2], c[3], c[5], c[6]))
+            a_, b_ = hi_.get(c[1]), plain_.get(c[1][1:])
+            if b_ is not None and b_.startswith('ok') and a_ != b_:
+                ctx.fail('oracle', c, impl=a_, model=None, expect=b_, note='== / != on a value built after a list was started and never ended gives another verdict than on a fresh data object')
     dis = 0
     tags = {}
     results = {}
